@@ -91,11 +91,41 @@ def getAll (pkt : Go.Bytes) : Go.M String := do
   let cnt ← mbapp.Header.GetPartCount h
   return s!"{b2s ask}{b2s reply} {code.toNat} {ot.toNat} {ctr.toNat} {size.toNat} {idx.toNat} {cnt.toNat} {showU body}"
 
+def iterPadID (b : Go.Bytes) : Go.Bytes := (b ++ List.replicate 32 0).take 32
+
+def iterRef (t : String) : kademlia.NodeInfoT :=
+  match t.splitOn "/" with
+  | [i, f] => { ID := iterPadID (hexU i), Info := hexU f }
+  | _ => default
+
+def iterRefs (t : String) : List kademlia.NodeInfoT := if t == "-" then [] else (t.splitOn ";").map iterRef
+
+def iterTable (t : String) : List (Go.Bytes × List kademlia.NodeInfoT × Bool) :=
+  if t == "-" then [] else
+  (t.splitOn "|").filterMap (fun ent =>
+    match ent.splitOn "=" with
+    | [k, vc] =>
+      match vc.splitOn ":" with
+      | [v, c] => some (iterPadID (hexU k), iterRefs v, c == "1")
+      | _ => none
+    | _ => none)
+
+/-- the scripted network of the `kad iter` op: answers from the table, records whom it was called with -/
+def iterFn (table : List (Go.Bytes × List kademlia.NodeInfoT × Bool)) (tr : List String) (ni : kademlia.NodeInfoT) :
+    Go.M (List String × List kademlia.NodeInfoT × Bool) :=
+  let tr' := tr ++ [showU (ni.ID.take 4) ++ "/" ++ showU ni.Info]
+  match table.reverse.lookup ni.ID with
+  | some (ns, c) => pure (tr', ns, c)
+  | none => pure (tr', [], true)
+
 def srcStep (_ : Unit) (ops : List String) (_impl : String) : Unit × String :=
   let r : String :=
     match ops with
     | ["mux", k, c, p] => srcMux k c p
     | ["demux", k, f] => srcDemux k f
+    | ["kad", "iter", key, n, init, tab] =>
+      showM (kademlia.dhtIterate (iterRefs init) (hexU key) (intArg n) (iterFn (iterTable tab)) [])
+        (fun tr => "t=" ++ ",".intercalate tr)
     | ["kad", "lz", x] => showM (kademlia.LeadingZeros (hexU x)) toString
     | ["kad", "xor", d, a, b] => showM (kademlia.XORBytes (hexU d) (hexU a) (hexU b)) (fun r => s!"{r.1} {showU r.2}")
     | ["kad", "prefix", x, p, n] => showM (kademlia.HasPrefix (hexU x) (hexU p) (intArg n)) b2s
